@@ -393,9 +393,101 @@ def shard_config(args):
     return acc
 
 
+# -- more about the Logger itself: odd unknown field names, renaming after construction ------
+
+ODD_UNKNOWN = ["demand ", " demand", "target.demand", "pool-supply", "", "Demand", "demand_",
+               "value2", "supply,", "%"]
+
+
+class _Collect(logging.Handler):
+    def __init__(self):
+        super().__init__(level=1)
+        self.seen = []
+
+    def emit(self, record):
+        self.seen.append(record.name)
+
+
+def shard_logger_extra(args):
+    from cobald.decorator.logger import Logger
+
+    acc = Acc()
+    # (1) a template naming an unknown field is rejected at construction - whatever the name
+    for unknown, known, order in itertools.product(ODD_UNKNOWN, [None] + KNOWN_FIELDS[:3], (0, 1)):
+        parts = ["u=%%(%s)s" % unknown] + (["k=%%(%s)s" % known] if known else [])
+        template = " ".join(parts if order == 0 else reversed(parts))
+        if known is None and order == 1:
+            continue
+        case = {"kind": "odd-template", "template": template}
+        problem = run_logger_extra(case)
+        acc.case(nontrivial_key=repr(case), sample=case if unknown == "" else None)
+        acc.outcome(("odd-template", problem is None))
+        if problem:
+            acc.violation(problem[0], problem[1], case, size=(1, len(template)))
+    # (2) the configured logger is the one configured *now*: renaming takes effect
+    names = ["verif.c16.first", "verif.c16.second", None]
+    for first, second, level in itertools.product(names, names, LEVELS):
+        if first == second:
+            continue
+        case = {"kind": "rename", "names": [first, second], "level": level}
+        problem = run_logger_extra(case)
+        acc.case(nontrivial_key=repr(case), sample=case if level == 35 else None)
+        acc.outcome(("rename", problem is None))
+        if problem:
+            acc.violation(problem[0], problem[1], case, size=(2, 0))
+    return acc
+
+
+def run_logger_extra(case):
+    from cobald.decorator.logger import Logger
+
+    pool = new_pool()
+    if case["kind"] == "odd-template":
+        try:
+            Logger(pool, name="verif.c16.odd", message=case["template"])
+        except Exception:  # noqa: B902 - rejected, as the statement demands
+            return None
+        return ("logger:unknown-field-accepted",
+                "template %r (an unknown field) was accepted by the constructor"
+                % case["template"])
+    collect = _Collect()
+    default_name = type(pool).__qualname__
+    loggers = [logging.getLogger(n) for n in ("verif.c16.first", "verif.c16.second",
+                                              default_name)]
+    saved = [(lg, lg.level, lg.propagate) for lg in loggers]
+    try:
+        for lg in loggers:
+            lg.addHandler(collect)
+            lg.setLevel(1)
+            lg.propagate = False
+        first, second = case["names"]
+        decorated = Logger(pool, name=first, level=case["level"])
+        decorated.demand = 1
+        decorated.name = second
+        decorated.demand = 2
+        want = [n if n is not None else default_name for n in (first, second)]
+        if decorated.name != want[1]:
+            return ("logger:name-not-updated", "name reads %r after setting %r"
+                    % (decorated.name, second))
+        if collect.seen != want:
+            return ("logger:renamed-logger-not-used",
+                    "Logger(name=%r), write, name=%r, write: records went to %r, expected %r"
+                    % (first, second, collect.seen, want))
+    except Exception as err:  # noqa: B902
+        return ("logger:rename-raises", "%s: %s" % (type(err).__name__, err))
+    finally:
+        for lg, level, propagate in saved:
+            lg.removeHandler(collect)
+            lg.setLevel(level)
+            lg.propagate = propagate
+    return None
+
+
 def shard(args):
     with warnings.catch_warnings():
         warnings.simplefilter("ignore")
+        if args[0] == "logger-extra":
+            return shard_logger_extra(args)
         return (shard_stack if args[0] == "stack" else shard_config)(args)
 
 
@@ -419,6 +511,7 @@ def run(ctx):
     config_depth = 2 if ctx.quick else 3
     shards = [("stack", stack, depth) for stack in stacks()]
     shards += [("config", fields, config_depth) for fields in templates()]
+    shards.append(("logger-extra",))
     ctx.acc = Acc()
     ctx.pmap(shard, shards)
     ctx.acc.settle()  # per key, the shallowest stack and shortest history
@@ -458,6 +551,9 @@ def replay(data):
     case = {key: value for key, value in data.items() if key in ("stack", "configs")}
     with warnings.catch_warnings():
         warnings.simplefilter("ignore")
+        if data["kind"] in ("odd-template", "rename"):
+            problem = run_logger_extra(data)
+            return problem and problem[1]
         if data["kind"] == "construct":
             problem = check_construction(case)
             return problem and problem[1]
